@@ -37,6 +37,22 @@ CLAIMS = {
              "CPython), z3. Unverified: str/bytes/bytearray/unicode indexing helpers, SetItemInt/DelItemInt, slicing (SliceObject), "
              "helper selection in IndexNode.",
         ref="4 C15"),
+    "C40": dict(
+        text="Proof of the two decision points of safe type inference in TypeInference.py (real functions, sidecar contracts): "
+             "MarkOverflowingArithmetic.visit_BinopNode visits the operand names of EVERY binary operator whose C result can leave the "
+             "operand range (all of ExprNodes.binop_node_classes except & | ^ %, the universe being read from the working tree each run) "
+             "with might_overflow set, restores the flag and returns the node (visit_neutral_node / visit_dangerous_node inlined, "
+             "visitchildren by contract with a ghost recording the flag); safe_spanning_type returns a C integer or enum type other "
+             "than bint only when might_overflow is false, on every one of its 19 paths (type objects opaque, kind flags as fields). "
+             "Kernel: these two functions.",
+        note="Trusted: dv Python front end (strings as interned ids; the substring test `op in '&|^'` decided over the declared operator "
+             "universe; user-defined == as an uninterpreted reflexive relation), z3. ASSUMED: consistency of PyrexTypes kind flags (C "
+             "integer/enum kinds exclude the other kinds; c_double/c_float are floats; the Builtin fallback types are Python object "
+             "types; integer types can always be coerced to objects). Unverified: MarkParallelAssignments, the other visit_* methods "
+             "(abs, unary minus, in-place operators, long literals), find_spanning_type / simply_type, the inference driver "
+             "(SimpleAssignmentTypeInferer), and that results of inferred code equal those of uninferred code (a relational "
+             "whole-compiler property).",
+        ref="4 C40"),
     "C13": dict(
         text="Proof (a) on the abstract object model (bytes objects as length + char array) that __Pyx_PyBytes_SingleTailmatch - the helper "
              "behind bytes.startswith / bytes.endswith on typed receivers, taken from the generated module - returns for a bytes affix and "
